@@ -193,6 +193,9 @@ func cmdCheck(args []string) {
 		if hs.Tier == "thorough" && *tier != "thorough" {
 			continue
 		}
+		if hs.Tier == "quick" && *tier == "thorough" {
+			continue // a quick-tier variant the thorough options of its sibling already subsume
+		}
 		if *only != "" && !strings.Contains(hs.Name, *only) {
 			continue
 		}
